@@ -105,10 +105,16 @@ def extract(repo=None, extra_flags=(), extra_units=(), roots=None, with_instanti
             raise AnalysisBroken('extractor failed on %s: %s' % (u, err[-1500:]))
         if json.load(open(o)).get('errors', 0):
             raise AnalysisBroken('unit %s has compile errors under clang: %s' % (u, err[-1500:]))
-    # prune old cache entries (keep 6 newest)
-    ents = sorted([os.path.join(CACHE, e) for e in os.listdir(CACHE)], key=os.path.getmtime)
-    for e in ents[:-6]:
-        subprocess.run(['rm', '-rf', e])
+    # prune old cache entries: keep the 40 newest, and never remove one touched in the last hour (another check
+    # process may be analysing a different tree - e.g. a seeded copy - at the same time)
+    try:
+        ents = sorted([os.path.join(CACHE, e) for e in os.listdir(CACHE)], key=os.path.getmtime)
+        now = time.time()
+        for e in ents[:-40]:
+            if now - os.path.getmtime(e) > 3600:
+                subprocess.run(['rm', '-rf', e])
+    except OSError:
+        pass
     open(done, 'w').write(time.ctime())
     return d
 
